@@ -136,6 +136,9 @@ func readIlocHeader(b *box) (ilb itemLocationBox, err error) {
 
 func uintN(size uint8, buf []byte) uint64 {
 	switch size {
+	case 0:
+		// a size of 0 means the field is absent: its value is 0
+		return 0
 	case 1:
 		return uint64(buf[0])
 	case 2:
@@ -145,6 +148,7 @@ func uintN(size uint8, buf []byte) uint64 {
 	case 8:
 		return bmffEndian.Uint64(buf[:8])
 	default:
-		panic("error here")
+		// sizes other than 0, 4 and 8 are not defined by the format
+		return 0
 	}
 }
